@@ -116,6 +116,26 @@ static void apply(char *op)
 	if (!n) return;
 	if (t[0][0] == 'r') { if (close_fs() || open_fs()) return; verify(name); return; }
 	x = t[1][0] == 'P' ? 0 : t[1][0] == 'D' ? 1 : 2;
+	if (t[0][0] == 'h' && n == 2) {
+		/* share: inode x (which has no attributes yet) is given inode P's external attribute block, as the kernel does for inodes with identical
+		 * attributes (h_refcount goes up by one).  Only meaningful on 128-byte inodes, where every attribute lives in the block.  From here on a change
+		 * through one inode must not show through the other. */
+		struct ext2_inode_large ip, ix; __u32 newc = 0; blk64_t acl; int kk;
+		if (x == 0) return;
+		for (kk = 0; kk < NNAMES; kk++) if (M[x][kk].present) return;
+		if (ext2fs_read_inode_full(fs, ino[0], (struct ext2_inode *) &ip, sizeof ip) || ext2fs_read_inode_full(fs, ino[x], (struct ext2_inode *) &ix, sizeof ix)) { setbad("%s: read_inode failed", name); return; }
+		acl = ext2fs_file_acl_block(fs, (struct ext2_inode *) &ip);
+		if (!acl || ext2fs_file_acl_block(fs, (struct ext2_inode *) &ix) || EXT2_INODE_SIZE(fs->super) != 128) return;
+		if ((e = ext2fs_adjust_ea_refcount3(fs, acl, NULL, 1, &newc, ino[x]))) { setbad("%s: adjust_ea_refcount failed: %ld", name, (long) e); return; }
+		ext2fs_file_acl_block_set(fs, (struct ext2_inode *) &ix, acl);
+		if ((e = ext2fs_iblk_add_blocks(fs, (struct ext2_inode *) &ix, 1)) || (e = ext2fs_write_inode_full(fs, ino[x], (struct ext2_inode *) &ix, sizeof ix))) { setbad("%s: write_inode failed: %ld", name, (long) e); return; }
+		for (kk = 0; kk < NNAMES; kk++) {
+			M[x][kk].present = M[0][kk].present; M[x][kk].len = M[0][kk].len; free(M[x][kk].v); M[x][kk].v = NULL;
+			if (M[0][kk].present) { M[x][kk].v = malloc(M[0][kk].len + 1); memcpy(M[x][kk].v, M[0][kk].v, M[0][kk].len); }
+		}
+		verify(name);
+		return;
+	}
 	if ((e = ext2fs_xattrs_open(fs, ino[x], &h))) { setbad("%s: xattrs_open failed: %ld", name, (long) e); return; }
 	if ((e = ext2fs_xattrs_read(h))) { setbad("%s: xattrs_read failed: %ld", name, (long) e); ext2fs_xattrs_close(&h); return; }
 	if (t[0][0] == 's' && n == 4) do_set(h, x, atoi(t[2]), atoi(t[3]), name);
